@@ -21,7 +21,7 @@ pub fn run(id: usize, rng: &mut Rng) -> String {
     let trickle: usize = if rng.chance(1, 3) { 9 } else { 0 };
     let total: usize = bursts.iter().map(|b| b.0).sum();
     let short: Vec<bool> = (0..total).map(|_| rng.chance(1, 5)).collect();
-    let cfg = Config { seed: rng.next(), p_timer: *rng.pick(&[0u64, 0, 20]), ..Config::default() };
+    let cfg = Config { seed: rng.next(), p_timer: *rng.pick(&[0u64, 0, 20]), p_spurious: *rng.pick(&[0u64, 0, 0, 40, 200]), ..Config::default() };
     let b2 = bursts.clone();
     let s2 = short.clone();
     let ((started, after_burst, idle, dropped, q1, q2, q3, trickle_live), rep) = sched::run(&cfg, move || {
@@ -210,6 +210,14 @@ pub fn map_labels(rep: &sched::Report) -> String {
                     if in_wait.get(&e.tid).cloned().unwrap_or(false) {
                         in_wait.insert(e.tid, false);
                         emit(&mut out, e.t, format!("T{}", i), &mut last_t);
+                    }
+                }
+            }
+            "spurious" => {
+                if let Some(&i) = widx.get(&e.tid) {
+                    if in_wait.get(&e.tid).cloned().unwrap_or(false) {
+                        in_wait.insert(e.tid, false);
+                        emit(&mut out, e.t, format!("W{}", i), &mut last_t);
                     }
                 }
             }
